@@ -29,7 +29,7 @@ Definition wf_side (o : op) (t : tbl) : bool :=
     utf8_valid_b k && node_sat p (tbl_after (op_insert_item k (IAot [tbl_new] None))) (ITable t)
   | ORemove p k => node_sat p (remove_after k) (ITable t)
   | OArrPush p v | OArrInsert p _ v | OArrReplace p _ v => pv_ok v
-  | OArrRemove _ _ | OAotPush _ | OSort _ | OFmt _ => true
+  | OArrRemove _ _ | OAotPush _ | OSort _ | OFmt _ | OSortBy _ _ => true
   | OAotRemove p i => node_sat p (aot_remove_after i) (ITable t)
   | OMakeValue p k => node_sat p (slot_after k make_value mv_good) (ITable t)
   | OIntoTable p k => node_sat p (slot_after k into_table_slot (fun _ => true)) (ITable t)
@@ -52,7 +52,7 @@ Proof.
                                  tbl_wf true t' /\ Rt t t').
   { intros g f0 -> Hn Hg.
     exact (at_path_wf P (guard g f) Hn KRoot (ITable t) (ITable t') (at_path_guard P f g _ _ H Hg) Hw). }
-  destruct o as [q k v|q k|q k|q k|q v|q i v|q i v|q i|q|q i|q|q|q k|q k|q k|ks x];
+  destruct o as [q k v|q k|q k|q k|q v|q i v|q i v|q i|q|q i|q|q|q k|q k|q k|ks x|q cm];
     simpl in EO; injection EO as <- <-; simpl in Hs.
   - apply andb_true_iff in Hs as [Hk Hv]. exact (Plain _ eq_refl (op_insert_node k v Hk Hv)).
   - apply andb_true_iff in Hs as [Hk Hg].
@@ -74,6 +74,7 @@ Proof.
   - apply andb_true_iff in Hs as [Hs Hside]. apply andb_true_iff in Hs as [Hu Hp].
     simpl in H. destruct ks as [|k ks]; [discriminate|].
     exact (iset_wf x Hp (k :: ks) KRoot (ITable t) (ITable t') Hu H ltac:(discriminate) Hw Hside).
+  - exact (Plain _ eq_refl (op_sort_by_node cm)).
 Qed.
 
 (* ==================================================================================== *)
@@ -343,4 +344,26 @@ Proof.
   - destruct i0 as [|[|vals tr c d sp|items pre im dt d sp]|[items d im dt pos sp]|]; simpl in Hi; try discriminate;
       injection Hi as <-; try reflexivity.
     cbn [ipos tbl_with_items]. rewrite !tpos_eq, decorate_ipos. reflexivity.
+Qed.
+
+(* sorting moves whole entries: the positions of the sections are permuted with them, so `order_side` (the check
+   of the result) is the side condition of sort_values / sort_values_by on a TABLE.  On an INLINE table there
+   are no sections: the order cannot break, whatever the comparator *)
+Definition is_value_node (i : item) : bool := match i with IValue _ => true | _ => false end.
+Definition sort_path (o : op) : option path :=
+  match o with OSort p | OSortBy p _ => Some p | _ => None end.
+
+Theorem sort_inline_order_ok : forall o p t t',
+  sort_path o = Some p -> node_sat p is_value_node (ITable t) = true ->
+  apply o t = Some t' -> order_ok t -> order_ok t'.
+Proof.
+  intros o p t t' Hp Hg H Ho. unfold apply in H. destruct (op_fun o) as [P f] eqn:EO. apply as_tbl_abs in H.
+  assert (K : P = p -> (forall i i', guard is_value_node f i = Some i' -> ipos i' = ipos i) -> order_ok t').
+  { intros -> Hn. pose proof (at_path_ipos p (guard is_value_node f) Hn _ _ (at_path_guard p f is_value_node _ _ H Hg)) as E.
+    simpl in E. apply order_ok_tpos. rewrite E. apply order_ok_tpos. exact Ho. }
+  destruct o; try discriminate Hp; simpl in EO, Hp; injection EO as <- <-; injection Hp as <-; apply K; try reflexivity;
+    intros i0 i' Hi; unfold guard in Hi; destruct i0 as [|v| |]; try discriminate Hi; cbn [is_value_node] in Hi.
+  - destruct v; simpl in Hi; try discriminate. injection Hi as <-. reflexivity.
+  - destruct v as [| |items pre im dt d sp]; unfold op_sort_by in Hi; try discriminate.
+    destruct (inline_is_map (VInline items pre im dt d sp)); [|discriminate]. injection Hi as <-. reflexivity.
 Qed.
